@@ -21,12 +21,16 @@ NA = {
 }
 
 CHECKS = {
+ 'C02': dict(engine='threadsim', category='exploration', design_ref='4.2',
+   technique='deterministic simulation, sequential (no pre-emption) configuration of the threadsim cache harness: seeded operation histories checked step by step against an executable reference cache, destructive eviction-order probe, ddmin replay',
+   text='Seeded histories of 1-40 dict-API operations (including |=, copy, ==, re-entrant on_miss callbacks, equal-but-differently-typed keys) on LRI and LRU with small max_size; after every step outcome, contents, len, the three counters and the on_miss call log are compared with the reference cache of models/lru_model.py, the eviction order is probed through the public API at the end and after three seeded prefixes. No fault or schedule dimension exists in this property (faults_fired is empty): it is claimed as the fault-free baseline and oracle validation of the C03 simulation. Sampling, not proof.',
+   note='Trusts the reference model as the reading of C02 (popitem may return any present pair; update/|= = sequence of assignments; copy = .copy()). Found and fixed three defects (known_findings.json C02-F1..F3); 14 seeded mutants detected in the quick tier.'),
  'C12': dict(engine='simnet', category='exploration', design_ref='4.5',
    technique='deterministic simulation: scripted stream socket + discrete-event clock, seeded delivery/timeout/partial-send schedules, reference stream model, ddmin replay',
    text='Seeded search over byte streams, their composition into deliveries, timeout placements, kernel recv/send split scripts, recvsize/maxsize settings and call programs, executed against the real BufferedSocket/NetstringSocket over a simulated socket and clock; after every call (including every call that raised) the result is compared with an independent whole-stream model and byte conservation (returned + buffered + undelivered == stream; peer + kernel + send buffer == handed over) is checked; bounded liveness after faults stop. A fixed floor enumerates every composition of four short delimiter-rich streams. Sampling, not proof.',
    note='Trusts the SimSocket contract (never more than asked, b"" only after close, EWOULDBLOCK at timeout 0, send accepts 1..n bytes), sizes >= 1, and the reference model in checks/c12.py; 16 seeded mutants of socketutils are detected in the quick tier (DESIGN 4.5).'),
 }
-PENDING = {k: 'claimed by DESIGN.md but its check is not built yet in this commit (engine under construction); listed here only until the check lands' for k in ['C02','C03','C04','C05','C15','C18']}
+PENDING = {k: 'claimed by DESIGN.md but its check is not built yet in this commit (engine under construction); listed here only until the check lands' for k in ['C03','C04','C05','C15','C18']}
 
 def main():
     checks = []
